@@ -18,4 +18,10 @@ const RedisClusterSlots = 16384
 
 const ReqClusterNodes = "*2\r\n$7\r\ncluster\r\n$5\r\nnodes\r\n"
 
+// ReqAsking precedes a request that follows an ASK redirect
+const ReqAsking = "*1\r\n$6\r\nASKING\r\n"
+
+// MaxRedirects bounds how often one request follows MOVED/ASK redirects
+const MaxRedirects = 16
+
 const TitleSlowLog = "[SLOWLOG]"
